@@ -35,7 +35,10 @@ class ProgGen:
         with several for/if), tab (tab inside a text block line)"""
         self.rng = rng
         self.max_depth = max_depth
-        self.risky = set(risky)
+        # unary operators, tailstrict, multi-binding locals and `+:` function fields were
+        # disabled while the formatter corrupted them (fixed by fd80c63, 36da7c4, d7f7e14,
+        # 800ddf4); they are part of every stream again
+        self.risky = set(risky) | {"unary", "tailstrict", "localn"}
         self.uplus = "uplus" in self.risky
         self.weird = weird_strings
         self.features = {}
@@ -243,7 +246,7 @@ class ProgGen:
             self.note("call:named-arg")
             args.append([self.ident(), "="] + self.expr(d))
         e = f + ["("] + self.sep_list("args", args) + [")"]
-        if "tailstrict" in self.risky and r.chance(0.5):
+        if "tailstrict" in self.risky and r.chance(0.3):
             self.note("tailstrict")
             e.append("tailstrict")
         return e
@@ -281,7 +284,7 @@ class ProgGen:
 
     def local(self, d):
         r = self.rng
-        n = r.choice([2, 3]) if "localn" in self.risky and r.chance(0.6) else 1
+        n = r.choice([2, 3]) if "localn" in self.risky and r.chance(0.4) else 1
         self.note("local" if n == 1 else "local:multi-bind")
         tag = "local1" if n == 1 else "localn"
         return ["local"] + self.sep_list(tag, [self.bind(d) for _ in range(n)], trailing_ok=False) + \
@@ -364,6 +367,9 @@ class ProgGen:
             return self.fieldname(d) + [vis] + self.function(d)
         if k == 4:
             self.note("field:plus")
+            if r.chance(0.35):
+                self.note("field:plus-function-value")
+                return self.fieldname(d) + ["+" + vis] + self.function(d)
             return self.fieldname(d) + ["+" + vis] + self.expr(d)
         self.note("field" + vis)
         return self.fieldname(d) + [vis] + self.expr(d)
@@ -643,7 +649,7 @@ def coq_ml_out(t):
 
 
 # ================================================================== cases
-RISKY = ["unary", "uplus", "tailstrict", "localn", "multispec", "tab"]
+RISKY = ["uplus", "multispec", "tab"]
 SAFE_SLOTS = ("arr", "obj", "args", "localn", "file-start", "file-end")
 STYLES = ["space", "newline", "compact", "mixed"]
 
@@ -655,29 +661,34 @@ FUZZ_ALPHA = ["x", "y", "1", "1.5", '"s"', "'t'", "@'v'", "+", "-", "*", "/", "%
 
 # canonical reproducing input of every known finding: (id, source, indent)
 CANONICAL = {
-    "C19-unary-operand-dropped": "~a * -b",
-    "C19-tailstrict-dropped": "f(1) tailstrict",
-    "C19-multi-local-trailing-comma": "local a = 1, b = 2; a",
     "C19-objcomp-specs-glued": "{ [k]: v for k in ks if k for v in vs }",
     "C19-line-comment-swallows-code": "f(1, // c1q\n 2)",
     "C19-comment-dropped-outside-lists": "1 /*c1q*/ + /*c2q*/ 2",
     "C19-empty-block-comment-dropped": "[/**/ 1]",
-    "C19-plus-dropped-on-function-field": "{ a+: function(x) x }",
     "C20-rowan-import-nonstring-panic": "import 1",
     "C20-dprint-debug-tab-newline": "// a\tb\n1",
     "C20-hidoc-annotation-oob": "~/*missing Expr*/\n",
     "C20-block-comment-reindent-unstable": "/**\n * a\n *\n * b\n */\n1",
     "C20-comment-before-local-moves-out": "(local /*c1q*/ b = x; 2)",
     "C20-invalid-input-formatted": "1 /*/",
+    "C20-second-pass-on-corrupted-output": "{ [k]: v for k in ks if k for v in vs }",
     "C20-whitespace-unstable-near-comments": "f( /*c1q*/ )",
     "C20-rowan-function-without-paren-panic": "function x",
     "C20-rowan-bump-at-eof-panic": "@'v' [ /*/ { ;",
 }
 
 
-# fixed findings: input -> behaviour now REQUIRED (checked as obligations by the C20 check)
+# fixed findings: input -> behaviour now REQUIRED (obligations fixed-finding-stays-fixed.*):
+#   "diag"      the formatter declines with a diagnostic at every indent, no panic
+#   "preserved" at every indent the output parses to the same program with the same comments
+#               (judged by the C19 check) and is a fixed point of a second pass (C20 check)
 FIXED = {
-    "C20-diag-range-underflow": ("+1", "diag"),   # eafd98a: a diagnostic, not a panic
+    "C20-diag-range-underflow": ("+1", "diag"),                                    # eafd98a
+    "C19-tailstrict-dropped": ("f(1) tailstrict", "preserved"),                    # 36da7c4
+    "C19-multi-local-trailing-comma": ("local a = 1, b = 2; a", "preserved"),      # d7f7e14
+    "C19-plus-dropped-on-function-field": ("{ a+: function(x) x }", "preserved"),  # 800ddf4
+    "C19-unary-operand-dropped": ("~a * -b", "preserved"),                         # fd80c63
+    "C19-unary-operand-dropped/2": ("[!1, -x.y(2)[3], ~(a + b)]", "preserved"),    # fd80c63
 }
 
 
@@ -703,7 +714,7 @@ def build_cases(run, quick_scale=1.0):
     add("clean-block-comments", 60, comment_at="slots", forms=["block", "block-tight", "block-multi"], density=0.5)
     add("all-boundary-comments", 70, comment_at="all", density=0.2)
     for rk in RISKY:
-        add("risky-" + rk, 24, risky=(rk,) if rk != "uplus" else ("unary", "uplus"))
+        add("risky-" + rk, 24, risky=(rk,))
     add("risky-mixed", 40, risky=tuple(RISKY), comment_at="slots", density=0.15)
     for fid, src in CANONICAL.items():
         cases.append({"src": src, "comments": [], "style": "canonical", "risky": [], "features": {},
@@ -741,7 +752,6 @@ def fuzz_cases(run):
 
 # ================================================================== judging
 GLUED = re.compile(r"[A-Za-z0-9_\"'\]\)\}](?:for|if)\b")
-COMMA_SEMI = re.compile(r",\s*;")
 CID = re.compile(r"c(\d+)q")
 
 
@@ -793,23 +803,6 @@ def c19_failures(case, o):
     return fails
 
 
-OPERAND_END = re.compile(r"^(?:[A-Za-z_]\w*|\d.*|\".*|'.*|@.*|\|\|\|.*|\)|\]|\}|\$)$", re.S)
-NOT_OPERAND = {"assert", "else", "error", "for", "function", "if", "import", "importstr", "importbin", "in",
-               "local", "then", "tailstrict"}
-
-
-def has_unary(toks):
-    """is some -, !, ~, + token in prefix position?"""
-    for i, t in enumerate(toks):
-        if t in ("-", "!", "~", "+"):
-            if i == 0:
-                return True
-            p = toks[i - 1]
-            if p in NOT_OPERAND or not OPERAND_END.match(p):
-                return True
-    return False
-
-
 def classify_c19(case, o, f, probs):
     """narrow classifiers; returns a finding id or None"""
     y = f["ok"]
@@ -819,30 +812,8 @@ def classify_c19(case, o, f, probs):
     ytok = tokens_of(f["lex"])
     whats = {p[0] for p in probs}
     has = lambda p: any(k.startswith(p) for k in feats)  # noqa
-    # (prefix position cannot be told from the token list alone: `function(x) -1`, `f(x) -1`)
-    unary_in = has_unary(xtok) or any(t in ("-", "!", "~", "+") for t in xtok)
-    if "/*missing Expr*/" in y and unary_in and any(t in ("-", "!", "~", "+") for t in xtok):
-        return "C19-unary-operand-dropped"
-    if "output parses to a different program" in whats and "tailstrict" in xtok and "tailstrict" not in ytok \
-            and [t for t in xtok if t != "tailstrict"].count("(") == ytok.count("("):
-        return "C19-tailstrict-dropped"
-    if whats == {"output parses to a different program"}:
-        d = [p[1] for p in probs if p[0] == "output parses to a different program"][0]
-        def plus_fn_at(i):
-            j = i + 1
-            while j < len(xtok) and xtok[j] in (":", "::", ":::") and j - i <= 3:
-                j += 1
-            return j > i + 1 and j < len(xtok) and xtok[j] == "function"
-        plus_fn = any(xtok[i] == "+" and plus_fn_at(i) for i in range(len(xtok)))
-        if plus_fn and isinstance(d, str) and d.endswith("[2]: true vs false") and \
-                ytok.count("+") < xtok.count("+"):
-            return "C19-plus-dropped-on-function-field"
-    comma_semi = any(a == "," and b == ";" for a, b in zip(ytok, ytok[1:])) and \
-        not any(a == "," and b == ";" for a, b in zip(xtok, xtok[1:]))
-    if "output rejected by the evaluator's parser" in whats and comma_semi and \
-            (has("local:multi-bind") or can == "C19-multi-local-trailing-comma"):
-        return "C19-multi-local-trailing-comma"
-    if (has("objcomp:multi-spec") or can == "C19-objcomp-specs-glued") and GLUED.search(y) and \
+    if (has("objcomp:multi-spec") or can in ("C19-objcomp-specs-glued", "C20-second-pass-on-corrupted-output")) \
+            and GLUED.search(y) and \
             "comment sequence changed" not in whats:
         return "C19-objcomp-specs-glued"
     # comments
@@ -929,8 +900,7 @@ def c20_failures(case, o, relex):
                 c19_known = {classify_c19(case, o, f, [p]) for p in pr}
             else:
                 c19_known = set()
-            corrupted = bool(c19_known & {"C19-unary-operand-dropped", "C19-multi-local-trailing-comma",
-                                          "C19-objcomp-specs-glued", "C19-line-comment-swallows-code"})
+            corrupted = bool(c19_known & {"C19-objcomp-specs-glued", "C19-line-comment-swallows-code"})
             if "panic" in a:
                 k = classify_panic(case, o, a["panic"], y, first=False)
                 if k == "C20-hidoc-annotation-oob" and not (corrupted or can == k or not valid):
@@ -974,52 +944,63 @@ def classify_panic(case, o, msg, text, first):
 
 
 def classify_unstable(case, y, y2, ylex, y2lex, corrupted):
+    """second pass differs from the first: which known finding explains ALL of the difference?"""
     if corrupted:
         return "C20-second-pass-on-corrupted-output"
     if not y2lex:
         return None
+
     def no_trailing_commas(ts):
         return [t for i, t in enumerate(ts) if not (t == "," and i + 1 < len(ts) and ts[i + 1] in (")", "]", "}"))]
     ty1, ty2 = tokens_of(ylex), tokens_of(y2lex)
-    if ty1 != ty2:
-        # the only token change tolerated below: a trailing comma that comes and goes with the
-        # single-line / multi-line decision, and only for the whitespace-near-comments class
-        if no_trailing_commas(ty1) != no_trailing_commas(ty2) or ylex["comments"] != y2lex["comments"] \
-                or not ylex["comments"]:
-            return None
-        return "C20-whitespace-unstable-near-comments"
-    cy = ylex["comments"]
-    cy2 = y2lex["comments"]
-    if len(cy) == len(cy2):
-        # same comments, some block comments re-indented: each changed one must be predicted
-        # unstable by the comment model at the indentation it has in y
-        pos = 0
-        changed = 0
-        for (k, t), (k2, t2) in zip(cy, cy2):
-            p = y.find(t, pos)
-            if p >= 0:
-                pos = p + len(t)
-            if (k, t) == (k2, t2):
-                continue
-            if k != "MULTI_LINE_COMMENT" or k2 != k:
-                return None
-            ind = find_indent(y, p) if p >= 0 else ""
-            if ml_text_stable(ind, t):
-                return None
-            changed += 1
-        if changed:
-            return "C20-block-comment-reindent-unstable"
-        if cy:
-            # identical tokens and identical comments: only the whitespace around them moved
-            return "C20-whitespace-unstable-near-comments"
+    cy = [tuple(c) for c in ylex["comments"]]
+    cy2 = [tuple(c) for c in y2lex["comments"]]
+    if not cy:
+        return None     # programs without comments must be stable, whitespace included
+    # the only token change tolerated: a trailing comma that comes and goes with the single-line /
+    # multi-line decision
+    if ty1 != ty2 and no_trailing_commas(ty1) != no_trailing_commas(ty2):
         return None
-    # comments lost on the second pass: the first pass moved a comment in front of `local`
-    w2 = [comment_words(*c) for c in cy2]
-    w1 = [comment_words(*c) for c in cy]
-    it = iter(w1)
-    if len(w2) < len(w1) and all(any(w == x for x in it) for w in w2):
-        if re.search(r"\*/\s*local\b|(//|#)[^\n]*\n\s*local\b", y) and \
-                (case.get("canonical") == "C20-comment-before-local-moves-out" or
-                 any(c["slot"] in ("local1", "inner") for c in case["comments"])):
-            return "C20-comment-before-local-moves-out"
-    return None
+    lost_before_local = 0
+    if len(cy2) < len(cy):
+        # comments lost on the second pass: each of them must stand directly in front of `local`
+        # in the first output (where the single-binding local printer put it)
+        rest = re.compile(r"(?:\s|/\*.*?\*/|//[^\n]*\n|#[^\n]*\n)*local\b", re.S)
+        kept, j, pos = [], 0, 0
+        for k, t in cy:
+            p = y.find(t, pos)
+            if p < 0:
+                return None
+            pos = p + len(t)
+            if j < len(cy2) and comment_words(k, t) == comment_words(*cy2[j]):
+                kept.append((k, t, p))
+                j += 1
+            elif rest.match(y, pos):
+                lost_before_local += 1
+            else:
+                return None
+        if j != len(cy2):
+            return None
+        cy = [(k, t) for k, t, _ in kept]
+    elif len(cy2) > len(cy):
+        return None
+    # pairwise: a changed comment must be a block comment the comment model predicts unstable
+    pos = 0
+    changed = 0
+    for (k, t), (k2, t2) in zip(cy, cy2):
+        p = y.find(t, pos)
+        if p >= 0:
+            pos = p + len(t)
+        if (k, t) == (k2, t2):
+            continue
+        if k != "MULTI_LINE_COMMENT" or k2 != k:
+            return None
+        ind = find_indent(y, p) if p >= 0 else ""
+        if ml_text_stable(ind, t):
+            return None
+        changed += 1
+    if lost_before_local:
+        return "C20-comment-before-local-moves-out"
+    if changed:
+        return "C20-block-comment-reindent-unstable"
+    return "C20-whitespace-unstable-near-comments"
